@@ -35,6 +35,48 @@ META = {
 EXCEL = 'formulas/excel/__init__.py'
 
 
+def _push_scopes(ctx, f, stmts, stack):
+    """Where values get onto the work-list `stack` from these statements of f:
+    [(statements, name of the list pushed to, [list literals returned])] -
+    the statements themselves; a private helper that is handed the work-list
+    (the list is its parameter); a private helper whose result is pushed
+    (`stack.extend(self._helper(...))`: the list it returns, built under a
+    local name or written as a literal)."""
+    out = [(stmts, stack, [])]
+    for s in stmts:
+        for c in ast.walk(s):
+            if not isinstance(c, ast.Call):
+                continue
+            # helper handed the work-list
+            if any(norm_src(a) == stack for a in c.args):
+                for e in ctx.cg._resolve_callee(f, c.func, c, 'call'):
+                    if e.is_ext or e.precision != 'exact':
+                        continue
+                    h = e.dst
+                    prm = h.params[1:] if h.cls is not None else h.params
+                    for i, a in enumerate(c.args):
+                        if norm_src(a) == stack and i < len(prm):
+                            out.append((h.node.body, prm[i], []))
+            # helper whose result is pushed
+            if call_name(c) in ('extend', 'append') and isinstance(
+                    c.func, ast.Attribute) and norm_src(
+                    c.func.value) == stack and c.args and isinstance(
+                    c.args[0], ast.Call):
+                for e in ctx.cg._resolve_callee(f, c.args[0].func, c.args[0],
+                                                'call'):
+                    if e.is_ext or e.precision != 'exact':
+                        continue
+                    h = e.dst
+                    rets = [n.value for n in own_nodes(h) if isinstance(
+                        n, ast.Return) and n.value is not None]
+                    names = {r.id for r in rets if isinstance(r, ast.Name)}
+                    lits = [r for r in rets if isinstance(r, (ast.List,
+                                                             ast.Tuple))]
+                    for nm in sorted(names) or [None]:
+                        out.append((h.node.body, nm, lits))
+    return out
+
+
 def rule_worklist(ctx):
     rr = RuleResult('C15', 'C15.worklist', 'MPT',
                     'work-list discipline of complete()', floor=6)
@@ -117,29 +159,18 @@ def rule_worklist(ctx):
             match("__rng.get('anchor')", n.test) is not None]
     aok = False
     if anch:
-        # the branch itself, or a private helper it hands the work-list to
-        scopes = [(anch[0].body, stack)]
-        for s in anch[0].body:
-            for c in ast.walk(s):
-                if not (isinstance(c, ast.Call) and any(
-                        norm_src(a) == stack for a in c.args)):
-                    continue
-                for e in ctx.cg._resolve_callee(f, c.func, c, 'call'):
-                    if e.is_ext or e.precision != 'exact':
-                        continue
-                    h = e.dst
-                    prm = h.params[1:] if h.cls is not None else h.params
-                    for i, a in enumerate(c.args):
-                        if norm_src(a) == stack and i < len(prm):
-                            scopes.append((h.node.body, prm[i]))
-        for body, wl in scopes:
-            inner = [c for s in body for c in ast.walk(s)
+        # the branch itself, a private helper it hands the work-list to, or
+        # a private helper whose returned list it pushes
+        for body, wl, lits in _push_scopes(ctx, f, anch[0].body, stack):
+            inner = [c.args[0] for s in body for c in ast.walk(s)
                      if isinstance(c, ast.Call) and call_name(c) in (
-                         'append', 'extend') and norm_src(c.func.value) == wl]
+                         'append', 'extend') and c.args and
+                     norm_src(c.func.value) == wl]
+            inner += [e for l_ in lits for e in l_.elts]
             fn = [c for s in body for c in ast.walk(s)
                   if isinstance(c, ast.Call) and call_name(c) == 'add_function']
             if inner and fn:
-                pushed = norm_src(inner[0].args[0])
+                pushed = norm_src(inner[0])
                 inputs = kwarg(fn[0], 'inputs')
                 aok = aok or (inputs is not None and
                               pushed in norm_src(inputs))
@@ -153,8 +184,10 @@ def rule_worklist(ctx):
                 function=f.qualname, line=lp.lineno)
     # (3) cells added push their inputs
     cok = False
-    for n in ast.walk(lp):
-        if isinstance(n, ast.For):
+    for body, wl, _lits in _push_scopes(ctx, f, lp.body, stack):
+        for n in [x for s_ in body for x in ast.walk(s_)]:
+            if not isinstance(n, ast.For):
+                continue
             adds = [s for s in n.body if isinstance(s, ast.Assign) and any(
                 isinstance(c, ast.Call) and call_name(c) == 'add_cell'
                 for c in ast.walk(s.value))]
@@ -163,7 +196,7 @@ def rule_worklist(ctx):
                 for s in n.body:
                     if isinstance(s, ast.If) and norm_src(s.test) == var and any(
                             isinstance(c, ast.Call) and call_name(c) == 'extend'
-                            and norm_src(c.func.value) == stack and
+                            and norm_src(c.func.value) == wl and
                             '%s.inputs' % var in norm_src(c)
                             for x in s.body for c in ast.walk(x)):
                         cok = True
@@ -179,6 +212,11 @@ def rule_worklist(ctx):
     rr.instances += 1
     it = [n for n in ast.walk(lp) if isinstance(n, ast.Call)
           and call_name(n) == 'iter_rows']
+    if not it:
+        # the window may be read by a private helper of complete()
+        from ..util import nodes_with_helpers
+        it = [n for _g, n in nodes_with_helpers(ctx, f)
+              if isinstance(n, ast.Call) and call_name(n) == 'iter_rows']
     if it and len(it[0].args) == 4:
         a = [norm_src(x) for x in it[0].args]
         good = match("__wk.iter_rows(int(__rng['r1']), min(int(__rng['r2']), "
@@ -284,10 +322,11 @@ def rule_drop(ctx):
 
 
 def run(ctx):
+    S = ctx.soft
     from .common import rule_cachekey
     from .modelstate import rule_snapshot
     from .c03 import _bounds
-    return [rule_worklist(ctx), rule_drop(ctx),
-            rule_snapshot(ctx, 'C15', 'C15.snapshot'),
-            _bounds(ctx, 'C15'),
-            rule_cachekey(ctx, 'C15', 'C15.cachekey', [EXCEL])]
+    return [S(rule_worklist, ctx), S(rule_drop, ctx),
+            S(rule_snapshot, ctx, 'C15', 'C15.snapshot'),
+            S(_bounds, ctx, 'C15'),
+            S(rule_cachekey, ctx, 'C15', 'C15.cachekey', [EXCEL])]
